@@ -142,11 +142,11 @@ theorem keys_map (u : Units) (f : Rat → Rat) :
   | cons p r ih => obtain ⟨k, e⟩ := p; simp [ih]
 
 theorem expOf_sqrtU (u : Units) (t : Sym) : expOf (sqrtU u) t = expOf u t / 2 := by
-  have := expOf_map u (fun e => e / 2) (by simp) t
+  have := expOf_map u (fun e => e / 2) (by grind) t
   simpa [sqrtU] using this
 
 theorem expOf_powConst (u : Units) (k : Rat) (t : Sym) : expOf (powConst u k) t = expOf u t * k := by
-  have := expOf_map u (fun e => e * k) (by simp) t
+  have := expOf_map u (fun e => e * k) (by grind) t
   simpa [powConst] using this
 
 theorem WF_sqrtU (u : Units) (h : WF u) : WF (sqrtU u) := by
@@ -249,5 +249,84 @@ theorem dictEq_iff (u v : Units) (hu : WF u) (hv : WF v) (zu : NoZero u) (zv : N
 
 theorem Equiv_filterZero (u : Units) (h : WF u) : Equiv (filterZero u) u :=
   fun t => expOf_filterZero u t h
+
+end QExPy.U
+
+namespace QExPy.U
+
+/-! ### `operate_with_units` without definitions -/
+
+theorem foldlM_unpack_nil (f : Nat) (u acc : Units) (c : Rat) :
+    u.foldlM (fun acc (p : Sym × Rat) =>
+      match lookupDef [] p.1 with
+      | none => some (upd acc p.1 (p.2 * c))
+      | some d => (unpackD [] f d (p.2 * c)).map fun un => merge acc un 1) acc
+    = some (merge acc u c) := by
+  induction u generalizing acc with
+  | nil => simp [merge]
+  | cons p r ih =>
+    obtain ⟨k, e⟩ := p
+    simp only [List.foldlM_cons, lookupDef, merge]
+    rw [Rat.mul_comm e c]
+    exact ih _
+
+theorem unpack_nil (u : Units) : unpack [] u = some (merge [] u 1) := by
+  simp only [unpack, List.length_nil, Nat.zero_add, unpackD]
+  exact foldlM_unpack_nil 0 u [] 1
+
+theorem expOf_unpacked (u : Units) (h : WF u) (t : Sym) : expOf (merge [] u 1) t = expOf u t := by
+  rw [expOf_merge _ _ _ _ h]; simp [expOf_nil, Rat.zero_add, Rat.one_mul]
+
+theorem WF_unpacked (u : Units) : WF (merge [] u 1) := WF_merge _ _ _ WF_nil
+
+theorem packOr_nil (u : Units) : packOr [] u = u := by simp [packOr, firstPack]
+
+theorem merge_nil_eq_nil (u : Units) (c : Rat) : merge [] u c = [] ↔ u = [] := by
+  cases u with
+  | nil => simp [merge]
+  | cons p r =>
+    obtain ⟨k, e⟩ := p
+    simp only [merge, upd, reduceCtorEq, iff_false]
+    intro h
+    have hw : k ∈ (merge [(k, c * e)] r c).map Prod.fst := by
+      have : ∀ (acc : Units) (v : Units), k ∈ acc.map Prod.fst → k ∈ (merge acc v c).map Prod.fst := by
+        intro acc v
+        induction v generalizing acc with
+        | nil => simp [merge]
+        | cons q rr ih =>
+          obtain ⟨k', e'⟩ := q
+          intro hk
+          simp only [merge]
+          apply ih
+          rw [keys_upd]
+          split
+          · exact hk
+          · exact List.mem_append_left _ hk
+      exact this _ _ (by simp)
+    rw [h] at hw
+    simp at hw
+
+end QExPy.U
+
+namespace QExPy.U
+
+theorem guarded_true (op : String) (ops : List (Units × Bool × Nat)) (w : Nat)
+    (h : ops.all (fun r => !r.1.isEmpty || r.2.1) = true) :
+    guarded [] op ops w = (operate [] op (ops.map (·.1))).map
+      (fun r => (r.1, false, w + (if r.2 then 1 else 0))) := by
+  unfold guarded
+  rw [if_pos h]
+  cases operate [] op (ops.map (·.1)) <;> rfl
+
+theorem operate_nil1 (op : String) (a : Units) :
+    operate [] op [a] = (dispatch op [merge [] a 1]).map fun r => (filterZero r.1, r.2) := by
+  simp only [operate, List.mapM_cons, List.mapM_nil, unpack_nil, bind, Option.bind, pure, packOr_nil]
+  cases dispatch op [merge [] a 1] <;> rfl
+
+theorem operate_nil2 (op : String) (a b : Units) :
+    operate [] op [a, b] =
+      (dispatch op [merge [] a 1, merge [] b 1]).map fun r => (filterZero r.1, r.2) := by
+  simp only [operate, List.mapM_cons, List.mapM_nil, unpack_nil, bind, Option.bind, pure, packOr_nil]
+  cases dispatch op [merge [] a 1, merge [] b 1] <;> rfl
 
 end QExPy.U
